@@ -135,6 +135,17 @@ func genSteps(t *rapid.T, n int, faults bool) []Step {
 			case 24:
 				// an entry whose extra_data names a chain hash that storage has never seen (A: index into hashWidths)
 				sp := genSpec(t, fmt.Sprintf("f%d", i))
+				if rapid.Bool().Draw(t, "realhash") {
+					// the hash is that of the entry's real chain, written as an earlier version of the front end would have
+					// (B = 1); it is read, then another certificate with the same chain is submitted, then it is read again
+					tw := sp
+					tw.ID = sp.ID ^ 0x2d2d2d
+					out = append(out, Step{Kind: "foreign-hash", Spec: &sp, B: 1}, Step{Kind: "read-last"})
+					if rapid.Bool().Draw(t, "thensubmit") {
+						out = append(out, Step{Kind: "submit", Spec: &tw}, Step{Kind: "read-last"}, Step{Kind: "read-prev"})
+					}
+					continue
+				}
 				out = append(out, Step{Kind: "foreign-hash", Spec: &sp, A: rapid.IntRange(0, len(hashWidths)-1).Draw(t, "width")})
 			case 22:
 				out = append(out, Step{Kind: "corrupt", A: rapid.IntRange(0, 9).Draw(t, "k"), B: rapid.IntRange(0, 5000).Draw(t, "pos"), How: rapid.SampledFrom(corruptions).Draw(t, "how")})
@@ -235,13 +246,15 @@ type rig struct {
 	damaged      map[string]bool
 	cacheCorrupt bool
 	chainKeyOf   map[string]string // leaf_input -> chain key of the entry (submitted entries only)
-	foreign      map[string]bool   // leaf_input of entries whose extra_data names a hash that storage never held
+	// foreign: leaf_input of hand-written hash-form entries -> the storage key they name ("" for a made-up hash);
+	// while storage does not hold that key the entry cannot be served
+	foreign map[string]string
 	want             map[string][][]byte // leaf_input -> acceptable reference extra_data values (two precertificates may share a TBS and differ in signature)
 	mu               sync.Mutex
 }
 
 func newRig(t *testing.T, c Case) *rig {
-	r := &rig{beD: reflog.New(1, 1), beI: reflog.New(1, 1), store: memstore.New(), clock: ctfex.NewClock(time.UnixMilli(1700000000123)), want: map[string][][]byte{}, damaged: map[string]bool{}, chainKeyOf: map[string]string{}, foreign: map[string]bool{}}
+	r := &rig{beD: reflog.New(1, 1), beI: reflog.New(1, 1), store: memstore.New(), clock: ctfex.NewClock(time.UnixMilli(1700000000123)), want: map[string][][]byte{}, damaged: map[string]bool{}, chainKeyOf: map[string]string{}, foreign: map[string]string{}}
 	key := keys.Pick("p256", 5)
 	var err error
 	r.direct, err = ctfex.New(ctfex.Opts{LogKey: key, Roots: world.Roots(), Backend: r.beD, Clock: r.clock})
@@ -409,7 +422,12 @@ func (r *rig) compareRead(v *harness.Verdict, path, query string, isEAP bool) {
 			de, _ = parseEntries(d.Body)
 		}
 		for _, e := range de {
-			if r.foreign[string(e.leaf)] {
+			key, isForeign := r.foreign[string(e.leaf)]
+			if _, stored := r.store.M[key]; isForeign && key != "" && stored {
+				v.Class("hand-written-hash-form-entry-resolvable")
+				continue // the chain is in storage by now: judged like every other entry below
+			}
+			if isForeign {
 				// the range holds an entry whose chain hash storage does not know: an error, never chain data
 				if i.Status == 200 {
 					v.Failf("unknown-hash-served", "%s?%s: an entry whose extra_data names a chain hash unknown to storage was answered 200 %q", path, query, trunc(i.Body))
@@ -538,7 +556,7 @@ func (r *rig) submit(v *harness.Verdict, s *world.ChainSpec) {
 		}
 		r.mu.Unlock()
 		if _, ok := r.store.M[k]; !ok && len(r.damaged) == 0 && !r.addFault {
-			v.Failf("harness-chain-key", "the harness cannot predict the storage key of the issuance chain (store has %d rows)", r.store.Len())
+			v.Failf("chain-not-stored", "a submission was answered 200 but its issuance chain is not in storage under its hash (store has %d rows)", r.store.Len())
 		}
 	}
 	if len(b.Full) == 2 {
@@ -601,6 +619,21 @@ func check(t *testing.T, c Case) (v harness.Verdict) {
 			start := s.A % size
 			r.compareRead(&v, "/ct/v1/get-entries", fmt.Sprintf("start=%d&end=%d", start, start+s.B), false)
 			reads++
+		case "read-last", "read-prev":
+			seqNs += 1000
+			r.beD.Sequence(-1, seqNs)
+			r.beI.Sequence(-1, seqNs)
+			size := r.beD.Size()
+			idx := size - 1
+			if s.Kind == "read-prev" {
+				idx = size - 2
+			}
+			if idx < 0 {
+				continue
+			}
+			r.compareRead(&v, "/ct/v1/get-entries", fmt.Sprintf("start=%d&end=%d", idx, idx), false)
+			r.compareRead(&v, "/ct/v1/get-entry-and-proof", fmt.Sprintf("leaf_index=%d&tree_size=%d", idx, size), true)
+			reads++
 		case "eap":
 			size := r.beD.Size()
 			if size == 0 {
@@ -657,6 +690,12 @@ func check(t *testing.T, c Case) (v harness.Verdict) {
 			for i := range h {
 				h[i] = byte(i*37+w) | 1
 			}
+			key, directExtra := "", []byte(nil)
+			if s.B == 1 {
+				key = chainKey(b.Full)
+				w, h = 32, []byte(key)
+				directExtra = b.ExtraData()
+			}
 			var extra []byte
 			if b.Spec.Precert {
 				l := len(b.Full[0])
@@ -666,11 +705,19 @@ func check(t *testing.T, c Case) (v harness.Verdict) {
 			seqNs += 1000
 			r.beD.Sequence(-1, seqNs)
 			r.beI.Sequence(-1, seqNs)
-			r.beD.AppendRaw(lv, extra)
+			if directExtra == nil {
+				directExtra = extra
+			}
+			r.beD.AppendRaw(lv, directExtra)
 			r.beI.AppendRaw(lv, extra)
 			r.beD.Publish(seqNs + 1)
 			r.beI.Publish(seqNs + 1)
-			r.foreign[string(lv)] = true
+			r.foreign[string(lv)] = key
+			if key != "" {
+				r.want[string(lv)] = append(r.want[string(lv)], b.ExtraData())
+				r.chainKeyOf[string(lv)] = key
+				v.Class("hash-form-entry-written-by-hand")
+			}
 			v.Class(fmt.Sprintf("unknown-hash-width:%d", w))
 			v.NonTrivial = true
 		case "delete":
